@@ -37,9 +37,8 @@ def gen_methods(rng, n, with_dup_path=False):
                 val[d] = True
                 ps.append((d, "interface" if kind == "obj" else "IFoo", None, "p%d" % len(ps)))
             elif kind == "arr":
-                # a second array of the same direction is accepted by the compiler (the verifier
-                # only forbids mixing arrays with single objects)
-                if val[d] or (arr[d] and rng.random() < 0.5):
+                # one object array per direction, never beside a single object of that direction
+                if val[d] or arr[d]:
                     continue
                 arr[d] = True
                 ps.append((d, "IFoo", "[%d]" % rng.randint(1, 3), "p%d" % len(ps)))
@@ -54,11 +53,11 @@ def gen_methods(rng, n, with_dup_path=False):
             continue
         ms.append(("m%d" % len(ms), ps))
     if n >= 4:
-        # shapes random choice rarely reaches: several object arrays of one direction
+        # shapes random choice rarely reaches: an object array in each direction beside object structs
         k = len(ms)
-        ms[k - 2] = ("m%d" % (k - 2), [("out", "IFoo", "[%d]" % rng.randint(2, 3), "p0"), ("out", "IFoo", "[%d]" % rng.randint(1, 3), "p1"), ("out", "uint32", None, "p2")])
-        ms[k - 1] = ("m%d" % (k - 1), [("in", "IFoo", "[%d]" % rng.randint(2, 3), "p0"), ("in", "IFoo", "[%d]" % rng.randint(1, 2), "p1"),
-                                      ("out", "IFoo", "[1]", "p2"), ("out", "IFoo", "[2]", "p3"), ("in", "SO", None, "p4")])
+        ms[k - 2] = ("m%d" % (k - 2), [("out", "IFoo", "[%d]" % rng.randint(2, 3), "p0"), ("out", "SO", None, "p1"), ("out", "uint32", None, "p2")])
+        ms[k - 1] = ("m%d" % (k - 1), [("in", "IFoo", "[%d]" % rng.randint(2, 3), "p0"), ("out", "IFoo", "[%d]" % rng.randint(1, 3), "p1"),
+                                      ("in", "SO", None, "p2"), ("out", "ST", None, "p3")])
     if with_dup_path:
         ms.append(("m%d" % len(ms), [("in", "SN", None, "p0"), ("out", "SN", None, "p1")]))
     return ms
